@@ -12,6 +12,10 @@ def renderOps : OpTable
   | "render_tag" => some do
     let n ← node; let i ← nat; let e ← str
     pure (encExcept encStr (renderTagChecked cfg n i e))
+  | "render_tag_via" => some do
+    let _mode ← next
+    let n ← node; let i ← nat; let e ← str
+    pure (encExcept encStr (renderTagChecked cfg n i e))
   | "render_list" => some do
     let ks ← nodes; let i ← nat; let e ← str; let aw ← bool; let esc ← bool
     pure (encExcept encStr (renderListChecked cfg ks i e aw esc))
